@@ -318,6 +318,59 @@ def diagnose(ctx, trace):
     return at, res.violated
 
 
+def retry_stage(ctx, tu):
+    """Spec growth: excutils.forever_retry_uncaught_exceptions = retry loop + StopWatch throttling
+    (spec/Retry.tla). Every behaviour (message / extra-time sequence) of the bounded model is replayed."""
+    import time as _time
+    from oslo_utils import excutils
+    total = 0
+    for cfg in ('a', 'b', 'c', 'd'):
+        res = tlc.run('MC_Retry', 'MC_Retry_%s.cfg' % cfg, workdir=ctx.work, workers=4)
+        ctx.tlc(res, 'Retry (%s): Accounted, OneSleepPerFailure, ChangeLoggedAtOnce, Throttled' % cfg, counts_as_states=False)
+        recs = res.records if not ctx.quick else res.records[::4]
+        for rec in recs:
+            hist = rec['hist']
+            logged = []
+            slept = []
+            state = {'i': 0}
+            _clock[0] = 0
+
+            def fn():
+                i = state['i']
+                if i < len(hist):
+                    state['i'] += 1
+                    raise ValueError('message %d' % hist[i][0])
+                return 'result'
+
+            def fake_sleep(sec):
+                i = state['i'] - 1
+                slept.append(sec)
+                _clock[0] += sec + hist[i][1]
+
+            def fake_exception(msg, *a, **kw):
+                logged.append(msg)
+            saved = (excutils.time.sleep, excutils.logging.exception)
+            excutils.time.sleep = fake_sleep
+            excutils.logging.exception = fake_exception
+            try:
+                wrapped = excutils.forever_retry_uncaught_exceptions(retry_delay=rec['rd'], same_log_delay=rec['sld'])(fn)
+                out = wrapped()
+            except Exception as e:
+                out = 'EXC:' + type(e).__name__
+            finally:
+                excutils.time.sleep, excutils.logging.exception = saved
+            total += 1
+            want_logs = ['Unexpected exception occurred %d time(s)... retrying.' % c for (_m, c) in rec['logs']]
+            if out != 'result' or logged != want_logs or len(slept) != len(hist) or any(x != rec['rd'] for x in slept):
+                ctx.violation({'kind': 'retry', 'result_ok': out == 'result', 'logs_ok': logged == want_logs},
+                              {'failures': hist, 'retry_delay': rec['rd'], 'same_log_delay': rec['sld'],
+                               'expected_logs': want_logs, 'observed_logs': logged, 'sleeps': slept, 'result': out},
+                              'forever_retry_uncaught_exceptions(retry_delay=%s, same_log_delay=%s) over failures %s: logged %s, '
+                              'specification %s' % (rec['rd'], rec['sld'], hist, logged, want_logs))
+    ctx.cov['evaluations'] += total
+    ctx.stage('retry-composition', behaviours=total)
+
+
 def run(ctx):
     tu = _impl()
     quick = ctx.quick
@@ -392,6 +445,7 @@ def run(ctx):
     ctx.stage('trace-validation', traces=n_tr, accepted=total)
     ctx.sample({'code_to_spec_trace_head': {'dur': first['dur'], 'ev': first['ev'][:8]}})
 
+    retry_stage(ctx, tu)
     # 4. binding self-tests ---------------------------------------------------
     # a spec-generated trace (a walk through the exported graph), independent
     # of the implementation: must be accepted; with one result changed: rejected
